@@ -84,7 +84,7 @@ PROPS = {
                 trusted=TRUSTED,
                 explanation="[P] F4, F3 (add_comments_includes_directives, match_comment_or_include), U8b/f, handle_inline_comment; [B] comment placements incl. comments inside continued literals",
                 witnesses=["c11_inline_directive_after_a_literal_becomes_a_directive_node"]),
-    "C12": dict(level="other", enum=["bounded_layout.py --only C12", ("enum_block_table.py", ["F12.table#reader_rule"])],
+    "C12": dict(level="other", enum=["bounded_layout.py --only C12", ("bounded_layout.py --only C05", ["reader#fixed."]), ("enum_block_table.py", ["F12.table#reader_rule"])],
                 claim="put-back half proved: physical-line stack (put/get_single_line, get_next_line keep the count invariant), item queue (put_item "
                       "prepends to the innermost reader), rule calls that report no match leave the item stream unchanged (Base.__new__, Comment, "
                       "BlockBase.match); cpp-directive items carry the exact span of the lines taken",
